@@ -472,6 +472,14 @@ func (ro *RedisOutput) sendRdb(pctx context.Context, reader ChannelReader) error
 		}
 	}()
 
+	// The snapshot is about to overwrite the target : the resume position stored there (it may
+	// have been re-keyed from the previous replication id) no longer describes the target's data.
+	// Withdraw it, so that an interrupted replay is followed by another full sync; the position
+	// of the snapshot is recorded once the whole snapshot has been applied.
+	if err := ro.invalidateCheckpoint(ctx, reader.RunId()); err != nil {
+		return err
+	}
+
 	rdbPipe := rdb.ParseRdb(reader.IoReader(), &readBytes, config.RdbPipeSize, ro.rdbParseOptions()...)
 	useBisyncGlobalLane := ro.bisyncEnabled() && ro.cfg.Redis.IsCluster()
 	errChanSize := ro.cfg.ReplayRdbParallel + 1
@@ -623,6 +631,31 @@ func (ro *RedisOutput) setCheckpoint(ctx context.Context, runId string, offset i
 		return checkpoint.SetCheckpoint(cli, checkpointKv)
 	}, 5, time.Second*2, 0.3)
 	ro.logger.Log(err, "set checkpoint : checkpoint(%v), err(%v)", checkpointKv, err)
+	return err
+}
+
+// invalidateCheckpoint removes the resume position of runId from every database of the target.
+func (ro *RedisOutput) invalidateCheckpoint(ctx context.Context, runId string) error {
+	if !ro.cfg.EnableResumeFromBreakPoint {
+		ro.cpGuard.Lock()
+		ro.checkpointInMem = checkpoint.CheckpointInfo{Key: ro.cfg.CheckpointName, RunId: "?", Offset: -1}
+		ro.cpGuard.Unlock()
+		return nil
+	}
+	if ro.bisyncEnabled() {
+		// the bidirectional namespaces keep their own recovery state
+		return nil
+	}
+
+	err := util.RetryLinearJitter(ctx, func() error {
+		cli, err := ro.NewRedisConn(ctx)
+		if err != nil {
+			return err
+		}
+		defer cli.Close()
+		return checkpoint.DelCheckpoint(cli, ro.cfg.CheckpointName, runId)
+	}, 5, time.Second*2, 0.3)
+	ro.logger.Log(err, "invalidate checkpoint : checkpoint(%s), runId(%s), err(%v)", ro.cfg.CheckpointName, runId, err)
 	return err
 }
 
